@@ -25,13 +25,54 @@ CLAIMS = {
             "non-JSON value types; reader/writer loops carry no state between siblings; parse_cardinality inverts "
             "list(tuple) for every order type. NOT decided: scalar re-typing by PyYAML/json, whitespace, equality of documents.",
             "table agreement + def-use (reaching definitions) + truthiness-guard lint + order-type abstract interpretation (ast)"),
+    "C03": ("whole invariant on normal exits; exceptional exits are C06",
+            "Inductive representation invariant: (base) _parent and the child lists are written only by an enumerated, closed "
+            "set of owner functions (kinds-resolved receivers), everything else goes through their API; (step) symbolic "
+            "simulation of every normal CFG path of every owner function, with owner-API calls replaced by their verified "
+            "contracts, ends with list membership and parent pointer in agreement; detach-or-refuse before a second listing; "
+            "ancestry guard before a Section is put below a Section; identity based removal; parent chain walks advance on "
+            "every iteration. Ten genuine defects of the pinned tree are recorded as known findings (double listing, cycles, "
+            "inherited list mutators). NOT decided: ==-based lookups picking the intended element; _reorder index arithmetic.",
+            "ownership (who-may-write) + pairing typestate by path simulation + dominance (ast, CFG, kind inference)"),
+    "C04": ("whole statement up to value-level equality of names",
+            "Decides: a raising name-clash test against the destination list dominates every primitive add to a child list; the "
+            "rename setters test the parent's list of the object's own kind and fall back to the id for empty names; the "
+            "constructors' name fallback dominates the name store on every path including the malformed-id handler path; every id "
+            "stored is str(uuid.UUID(.)) or str(uuid.uuid4()), only by constructors and new_id; malformed ids are replaced by the "
+            "constructors and rejected by new_id; the three classes agree; removal is by identity. Two known findings "
+            "(item assignment, inherited list adders). NOT decided: __contains__ vs plain name equality; uuid.UUID normalisation.",
+            "CFG dominance + reaching definitions + provenance of stored values + sibling skeleton agreement (ast)"),
+    "C05": ("shape clauses",
+            "Decides: closed writer sets for _values and _dtype; every element entering _values is dtypes.get(input, current dtype) "
+            "evaluated after the last dtype store; every dtype stored is None / passed valid_type / infer_dtype / a rollback; the "
+            "dispatch table covers every DType member; every converter returns the python type of its dtype (second resolution, no "
+            "pass-through); refused value edits leave _values and _dtype untouched (ATOM restricted to those fields); rollback "
+            "handlers catch everything. NOT decided: acceptance sets, idempotence per value, tuple import heuristics, strict mode.",
+            "ownership + provenance + table agreement + return-form check + validate-before-mutate path replay (ast, CFG, summaries)"),
+    "C06": ("whole statement within the raise vocabulary",
+            "ATOM (validate-before-mutate): every exceptional CFG path of every method of the model classes is replayed in "
+            "evaluation order with interprocedural write summaries (receiver origins) and raise summaries (explicit raises + "
+            "reviewed library raises, discharged by literals, kinds and established facts; callee = [raises][writes][late raises]); "
+            "no visible write may be in effect when an exception escapes; rollback stores cancel; constructors build a fresh "
+            "object until it is published; rollback handlers must be catch-all. Eleven genuine defects are recorded as known "
+            "findings; five were repaired by fix: commits. NOT decided: exceptions outside the vocabulary (MemoryError, "
+            "AttributeError from foreign objects, library internals).",
+            "validate-before-mutate typestate over all exceptional CFG paths with effect and raise summaries (ast, CFG, call graph)"),
     "C07": ("whole statement except I/O faults of write()",
             "Decides by dominance/ordering on the writer's CFG: Validation(doc) -> is_error loop -> raise ParserException "
             "dominates every file creating effect of ODMLWriter.write_file for every backend; fileio.save reaches the file "
             "system only through it; at every write-mode open() of the package the content is computed before the file is "
             "opened and only un-failable expressions are evaluated while it is open; nothing that can raise runs after a "
-            "file was written. NOT decided: I/O faults of write() itself; which documents the rules flag (C08).",
+            "file was written; the duplicate-id error rule shares one id map. NOT decided: I/O faults of write() itself; "
+            "which documents the rules flag (C08).",
             "CFG dominance (must-pass-through) + compute-before-open typestate + who-may-call (ast)"),
+    "C08": ("registry, rank and totality clauses; cardinality rules exactly",
+            "Decides: every documented rule is registered for exactly the documented object kinds (handler -> IssueID derived); "
+            "every ValidationError carries the documented rank; rules and driver cannot raise (empty raise summaries, guarded "
+            "indexing and named lookups, attributes exist on the inferred classes); the unique-id rules thread one id map through "
+            "the traversal; the driver visits every Section and Property; cardinality reports are exact over order types. "
+            "NOT decided: iff-semantics of the other rules on arbitrary documents.",
+            "table agreement + exception-escape summaries + typed attribute check + abstract interpretation (ast, kinds)"),
     "C09": ("whole statement",
             "Decides exhaustively over order types: format_cardinality returns None / a normal-form pair / ValueError; "
             "the three cardinality fields are stored only as format_cardinality(v) so a refused assignment keeps the old "
@@ -40,6 +81,73 @@ CLAIMS = {
             "both parse_cardinality functions invert the writers' rendering; cardinalities are format keys, readable and "
             "constructor keywords.",
             "finite abstract interpretation over order types (odmlsa's own AST evaluator, no import of odml) + provenance of stores + reader-set ownership"),
+    "C10": ("graph shape / table clauses",
+            "Decides: RDF attribute tables agree with the model classes and with what the dictionary reader accepts; one node per "
+            "object named by its id, linked from the parent by that very node; one constant Hub; nodes typed with rdf_type or with a "
+            "sub-class declared subClassOf on the same path, only with the switch on; values form one fresh rdf:Seq per call filled "
+            "in list order and read through rdflib's Seq; no set-but-falsy attribute dropped; ids recovered from the URI. "
+            "NOT decided: literal fidelity, equality of re-imported documents, sibling order.",
+            "table agreement + def-use/provenance of graph nodes + dominance (ast)"),
+    "C11": ("aliasing / freshness / id policy clauses",
+            "Decides: every clone chain re-binds every mutable container field of the copy with element-fresh containers and detaches "
+            "it; children are added only as clones and only under `if children`; new_id iff not keep_id in Document, Section and "
+            "Property, keep_id forwarded to every recursive clone; export_leaf clones with keep_id=True / children=False; the values "
+            "getter copies the list and inner tuple lists; value mutators store converted values only. NOT decided: clone() == "
+            "original (value level).",
+            "must-write dominance + origin (freshness) analysis + argument forwarding check (ast, CFG, summaries)"),
+    "C12": ("footprint clauses",
+            "Decides: everything finalize / the link and include setters / merge write is the linking Section, its children or the "
+            "terminology cache (interprocedural write summaries with receiver origins); only fresh clones are added and only for "
+            "children without counterpart; strict=False is used and forwarded; clean/unmerge write only the linking Section and its "
+            "children; the relative link is recomputed from the object the link is resolved from; link/include are persisted "
+            "attributes. NOT decided: the restoration law, relative path arithmetic, chained links.",
+            "effect (write footprint) summaries over the call graph with receiver origins (ast, kinds)"),
+    "C13": ("structural clauses",
+            "Decides: merge_check(source, strict) dominates every write of both merge functions; the check visits what the merge "
+            "visits (same iteration and selector, recursion, no early exit) and tests under strict every copied attribute plus dtype; "
+            "attributes are filled only when unset in the destination and set in the source; strict forwarded everywhere; the source "
+            "tree is never written; every source child is merged or cloned. One known finding (name/type selector mismatch). "
+            "NOT decided: value level merging of value lists, text normalisation.",
+            "CFG dominance + sibling skeleton agreement + write footprint summaries (ast)"),
+    "C15": ("logging / table / source clauses",
+            "Decides: every dropped element is logged in the same block; the filters test the 1.1 table of the matching level; created "
+            "and renamed tags are 1.1 keys; ids kept when valid, replaced when missing or malformed, always present; root stamped with "
+            "FORMAT_VERSION on every path; dictionary front ends create one element per key and never filter on content; separate "
+            "name maps for Sections and Properties; source opened read-only, output rendered before the target is opened. "
+            "NOT decided: preservation of tree, values and lifted attributes.",
+            "drop=>log pairing + table agreement + dominance + open-mode ownership (ast)"),
+    "C16": ("whole statement for the XML reader and the dictionary reader",
+            "Decides: the raise summaries of XMLReader.from_string/from_file and DictReader.to_odml contain only ParserException / "
+            "InvalidVersionException; every reader call into the model layer sits in try/except Exception -> self.error; error() only "
+            "warns in lenient mode and raises ParserException otherwise; lxml syntax errors are converted; parse_cardinality is total "
+            "on every order type; reader loops carry no state between siblings. One known finding (_csv.Error from from_csv). "
+            "NOT decided: library internals, wrong-shaped dictionaries, YAML scanner errors of the text front end.",
+            "exception-escape bound from interprocedural raise summaries + layering (dominating handler) check (ast, CFG, call graph)"),
+    "C17": ("isolation and write-provenance clauses",
+            "Decides: in both command line tools every failing call of the per-file loop is inside a catch-all handler that reports; "
+            "no early exit from the loop; every output path is join(fresh output directory, constant % splitext(basename(input))[0]); "
+            "the directories come from tempfile.mkdtemp; no destructive file call anywhere; each file list is converted with the "
+            "format of its glob, unconditionally; FormatConverter writes only output_path and derives the implicit directory next to "
+            "the input. NOT decided: byte identity of inputs, content of outputs.",
+            "exception-escape/layering check on the loop body + path provenance (def-use) + sink ownership (ast, summaries)"),
+    "C18": ("four ordering clauses; the schedule-equivalence core is not decided",
+            "Decides for both loaders: fetch and decode complete before the cache file is opened and a failed fetch reaches no write; "
+            "the loader thread is registered before it is started, only for unknown URLs; load joins a registered loader before pop "
+            "and retry; a document is published in the shared table only after from_file and finalize completed, by nobody else; "
+            "callers request the deferred load first. NOT decided: equivalence of all interleavings, data races, cyclic includes.",
+            "CFG dominance / ordering typestate on single resources + ownership of the shared table (ast)"),
+    "C19": ("whole statement",
+            "Decides: every registered rule and the Validation driver write nothing but the issue list and the threaded id map "
+            "(transitive write summaries with receiver origins); the class level default registry is written only by "
+            "register_handler, which nothing in the package calls at run time; reset=True shadows the registry on every path; every "
+            "register_custom_handler call site uses a receiver built with reset=True; a re-run starts from an empty issue list.",
+            "effect-freedom from interprocedural write summaries + registry ownership + constructor-flag typestate (ast, kinds)"),
+    "C20": ("vocabulary / attribute-table clauses",
+            "Decides: the attribute alternations of the six parser regexes equal the RDF tables of the matching format; every term of "
+            "the query templates is written by the exporter (two known findings: rdf:Bag / rdf:li versus the exported rdf:Seq); "
+            "Doc/Sec/Prop keys agree everywhere; parsers keep no state between queries; subset generation has the documented DFS "
+            "skeleton, duplicates decided on the attribute name, longest first, empty results omitted. NOT decided: SPARQL semantics.",
+            "table agreement (regex alternations, vocabulary) + shared-state lint + recursion skeleton check (ast)"),
 }
 
 NOT_APPLICABLE = {
